@@ -99,14 +99,14 @@ func (d *vrStopDB) Update(f func(tx walletdb.ReadWriteTx) error, reset func()) e
 	err := d.Backend.Update(f, reset)
 	if err == nil {
 		d.committed++
+		if d.onCommit != nil {
+			d.onCommit()
+		}
 		if d.limit >= 0 && d.committed >= d.limit {
 			// the stop takes effect right after the n-th commit:
 			// nothing that follows it (not even an upstream message
 			// sent before the next transaction) is observable
 			d.stopped.Store(true)
-		}
-		if d.onCommit != nil {
-			d.onCommit()
 		}
 	}
 	d.touch()
@@ -777,6 +777,7 @@ type vrInc struct {
 	log     *boltArbitratorLog
 	finOnce sync.Once
 	finDone chan struct{}
+	finRun  atomic.Bool
 }
 
 func (w *vrWorld) boot(ev vrEvent) *vrInc {
@@ -857,6 +858,7 @@ func (w *vrWorld) boot(ev vrEvent) *vrInc {
 		// ChainArbitrator.resolveContracts -> ResolveContract, on its
 		// own goroutine.
 		inc.finOnce.Do(func() {
+			inc.finRun.Store(true)
 			go func() {
 				defer close(inc.finDone)
 				if err := w.chanPut("full", []byte{1}); err != nil {
@@ -1034,10 +1036,21 @@ func (w *vrWorld) run() {
 			w.pump()
 			since := time.Since(time.Unix(0, w.db.lastAct.Load()))
 			if since > idle && (since > maxWait || (vrAllBlocked() && func() bool {
-				time.Sleep(5 * time.Millisecond)
-				return vrAllBlocked() &&
-					time.Since(time.Unix(0, w.db.lastAct.Load())) > idle
+				for i := 0; i < 3; i++ {
+					time.Sleep(5 * time.Millisecond)
+					if !vrAllBlocked() ||
+						time.Since(time.Unix(0, w.db.lastAct.Load())) <= idle {
+						return false
+					}
+				}
+				return true
 			}())) {
+				if os.Getenv("VERIF_C13_DEBUG") != "" {
+					buf := make([]byte, 4<<20)
+					n := runtime.Stack(buf, true)
+					fmt.Fprintf(os.Stderr, "IDLE case %d crashes %v inc %d\n%s\n",
+						c.ID, c.Crashes, c.Incs, buf[:n])
+				}
 				outcome = "idle"
 				continue
 			}
@@ -1049,7 +1062,8 @@ func (w *vrWorld) run() {
 		}
 		_ = inc.arb.Stop()
 		<-envDone
-		if outcome == "fin" {
+		if inc.finRun.Load() {
+			// nothing of a dead incarnation may touch the database later
 			<-inc.finDone
 		}
 		if w.db.stopped.Load() {
